@@ -116,3 +116,80 @@ pub fn replay_case(c: &Value) -> Result<Option<String>, String> {
     let m = ok.make_srep(super::c10::rv(v), UNIX_EPOCH + Duration::new(secs, nanos), &root);
     Ok(check_srep(v, m.get_field(Tag::SIG).unwrap(), m.get_field(Tag::SREP).unwrap(), &pk, secs, nanos, &root).map(|(a, b)| format!("{} {}", a, b)))
 }
+
+// ---------------------------------------------------------------------------------------------
+// full check: grid + live bracket
+
+pub fn run(ctx: &Ctx) -> Result<(), String> {
+    use super::c09;
+    use crate::inproc::{Srv, SrvCfg};
+    use std::sync::Mutex;
+    ctx.set_level("exploration");
+    crate::inproc::init();
+    let evals = AtomicU64::new(0);
+    let nontrivial = AtomicU64::new(0);
+    run_grid_part(ctx, &evals, &nontrivial);
+    // live: every reply of the C09 histories bracketed by the harness clock
+    let al = c09::alphabet();
+    let depth = ctx.tier.pick(4usize, 5);
+    let lt_pk = crypto::public_key(&crate::inproc::DEFAULT_SEED);
+    let failed: Mutex<Option<String>> = Mutex::new(None);
+    let live = AtomicU64::new(0);
+    for bs in [1u8, 3] {
+        let cfg = SrvCfg { batch_size: bs, ..Default::default() };
+        let n = al.len().pow(depth as u32);
+        par_for(n, 16, |idx, _| {
+            let h = c09::history_from_index(idx, depth, &al);
+            let mut srv = match Srv::new(&cfg) {
+                Ok(s) => s,
+                Err(e) => {
+                    *failed.lock().unwrap() = Some(e);
+                    return;
+                }
+            };
+            let mut obs = c09::run_events(&mut srv, &h, 2, false);
+            let _ = c09::judge(&mut obs, &lt_pk, false);
+            evals.fetch_add(1, Relaxed);
+            for (_, v, info) in &obs.infos {
+                live.fetch_add(1, Relaxed);
+                nontrivial.fetch_add(1, Relaxed);
+                let unit_us: u64 = match v {
+                    Version::Classic => 1,
+                    Version::Ietf13 => 1_000_000,
+                };
+                let want_radi: u32 = match v {
+                    Version::Classic => 5_000_000,
+                    Version::Ietf13 => 5,
+                };
+                let detail = |m: String| json!({"kind":"live","version":v.name(),"history":c09::hist_json(&cfg, &h),"midp":info.midp,"radi":info.radi,"t_before_us":obs.t_before_us,"t_after_us":obs.t_after_us,"message":m});
+                if info.radi != want_radi {
+                    ctx.violation("radius-not-5s", "reply", v.name(), detail("RADI".into()));
+                }
+                // signing happened in [t_before, t_after]; MIDP is the clock reading at signing in the
+                // protocol's unit (floor), so midp*unit <= t_after and (midp+1)*unit > t_before
+                let lo = info.midp.saturating_mul(unit_us);
+                let hi = (info.midp + 1).saturating_mul(unit_us);
+                if !(lo <= obs.t_after_us && hi > obs.t_before_us) {
+                    ctx.violation("midp-not-clock", "reply", v.name(), detail("midpoint outside the harness clock bracket".into()));
+                }
+                // and the true time of signing lies within midpoint +/- radius
+                let r_us = (info.radi as u64).saturating_mul(unit_us);
+                if !(lo.saturating_sub(r_us) <= obs.t_after_us && hi.saturating_add(r_us) >= obs.t_before_us) {
+                    ctx.violation("true-time-outside-radius", "reply", v.name(), detail("true time not within midpoint +/- radius".into()));
+                }
+            }
+        });
+    }
+    if let Some(e) = failed.lock().unwrap().take() {
+        return Err(e);
+    }
+    ctx.cov("evaluations", json!(evals.load(Relaxed)));
+    ctx.cov("distinct_nontrivial", json!(nontrivial.load(Relaxed)));
+    ctx.cov("live_replies_bracketed", json!(live.load(Relaxed)));
+    ctx.cov("exhaustive", json!(true));
+    ctx.cov("rule", json!("grid: make_srep(version, clock, root) for clock seconds {0,1,59,60,1e9,2^31-1,2^31,2^32-1,2^32,year 2200,year 9999,2^40} x nanos {0,1,999,1000,1001,499999999,999999,1000000,999999000,999999999} (thorough: + every second of 2024-02-29 x {0,999999999}) x both versions, second SREP on a key that already signed one: MIDP == floor(clock / unit) (microseconds classic, seconds IETF), RADI == 5 s in that unit, ROOT echoed, IETF VER/VERS present, SIG verifies under the online key with the response context. Live: every authentic reply of all C09 event histories of the tier's depth (batch_size 1 and 3) is bracketed by harness clock readings before the first send and after the last receive."));
+    ctx.sample(json!({"kind":"grid","version":"classic","secs":2147483648u64,"nanos":999999999}));
+    ctx.sample(json!({"kind":"live","version":"ietf13","events":["I0","C1","step","I1"]}));
+    ctx.assume("the harness and the in-process server read the same system clock; the clock does not step backwards during a history");
+    Ok(())
+}
